@@ -12,7 +12,6 @@ package main
 
 import (
 	"context"
-	"encoding/hex"
 	"encoding/json"
 	"fmt"
 	"math/big"
@@ -31,6 +30,7 @@ import (
 	"github.com/styrainc/regal/pkg/builtins"
 	"github.com/styrainc/regal/pkg/config"
 	"github.com/styrainc/regal/pkg/linter"
+	"github.com/styrainc/regal/pkg/rules"
 
 	"verifharness/hutil"
 )
@@ -94,12 +94,12 @@ func relPaths(maxDepth int) []string {
 
 // Shape is one way a file reaches the two matchers: a path prefix and a spelling of the file names.
 type Shape struct {
-	Name   string   `json:"name"`
-	Prefix string   `json:"prefix"`
-	Lead   string   `json:"lead"` // file name = Lead + relative path
-	Full   bool     `json:"full"` // all relative paths or the small subset
-	Files  []string `json:"files"`
-	Rel    []string `json:"rel"`      // the relative paths the names were built from
+	Name    string   `json:"name"`
+	Prefix  string   `json:"prefix"`
+	Lead    string   `json:"lead"` // file name = Lead + relative path
+	Full    bool     `json:"full"` // all relative paths or the small subset
+	Files   []string `json:"files"`
+	Rel     []string `json:"rel"`      // the relative paths the names were built from
 	RegoRel []string `json:"rego_rel"` // data.regal.main._file_name_relative_to_root(file, prefix), observed
 }
 
@@ -288,7 +288,39 @@ func goExcludedMask(files []string, pattern, prefix string) (string, string) {
 	return maskHex(bits), ""
 }
 
+// enginePanics: the glob engine itself crashes on (some expansion of) the pattern for some column.
+// Such a pattern takes down FilterIgnoredPaths and the OPA evaluation alike; it is outside the domain.
+func enginePanics(p string, universe []string) (msg string) {
+	defer func() {
+		if r := recover(); r != nil {
+			msg = fmt.Sprint(r)
+		}
+	}()
+	for _, e := range closure(p) {
+		g, err := glob.Compile(e, '/')
+		if err != nil {
+			continue
+		}
+		for _, u := range universe {
+			msg = e + " on " + u
+			g.Match(u)
+		}
+	}
+	return ""
+}
+
 func bulk(out *hutil.Out, o *opa, pats []string, srcs map[string]string, shs []*Shape, universe []string) {
+	{
+		var ok []string
+		for _, p := range pats {
+			if m := enginePanics(p, universe); m != "" {
+				out.Emit(map[string]any{"kind": "engine-panic", "p": p, "src": srcs[p], "what": m})
+			} else {
+				ok = append(ok, p)
+			}
+		}
+		pats = ok
+	}
 	type shIn struct {
 		Prefix string   `json:"prefix"`
 		Files  []string `json:"files"`
@@ -362,14 +394,14 @@ type SmallCase struct {
 	Rule   []string   `json:"rule"`
 	Table  [][]string `json:"table"` // [pattern, "ok"/"bad", matching column strings...]
 	// observed
-	GoSelected []string `json:"go_selected"`         // the list linter.Lint hands to FilterIgnoredPaths (mirrored here, see note)
-	GoKept     []string `json:"go_kept"`             // FilterIgnoredPaths(files, selected, false, prefix)
-	GoErr      bool     `json:"go_err"`              // ... returned an error
-	RegoGlobal []string `json:"rego_global"`         // _global_ignore_patterns (nil if undefined)
-	RegoGlobalDefined bool `json:"rego_global_defined"`
-	RegoRel    []string `json:"rego_rel"`            // _file_name_relative_to_root per file
-	RegoExcl   []int    `json:"rego_excl"`           // indices j with excluded_file(cat, rule, rel_j)
-	RegoExclGlobalOnly []int `json:"rego_excl_global"` // same with the rule list removed
+	GoSelected         []string `json:"go_selected"` // the list linter.Lint hands to FilterIgnoredPaths (mirrored here, see note)
+	GoKept             []string `json:"go_kept"`     // FilterIgnoredPaths(files, selected, false, prefix)
+	GoErr              bool     `json:"go_err"`      // ... returned an error
+	RegoGlobal         []string `json:"rego_global"` // _global_ignore_patterns (nil if undefined)
+	RegoGlobalDefined  bool     `json:"rego_global_defined"`
+	RegoRel            []string `json:"rego_rel"`         // _file_name_relative_to_root per file
+	RegoExcl           []int    `json:"rego_excl"`        // indices j with excluded_file(cat, rule, rel_j)
+	RegoExclGlobalOnly []int    `json:"rego_excl_global"` // same with the rule list removed
 }
 
 func smallCase(o *opa, src, prefix string, files, cli, cfg []string, cfgSet bool, rule []string) SmallCase {
@@ -473,11 +505,555 @@ func smallCase(o *opa, src, prefix string, files, cli, cfg []string, cfgSet bool
 	return c
 }
 
+func buildUniverse(o *opa, shs []*Shape, all []string) []string {
+	seen := map[string]bool{}
+	var cols []string
+	add := func(s string) {
+		if !seen[s] {
+			seen[s] = true
+			cols = append(cols, s)
+		}
+	}
+	for _, r := range all {
+		add(r)
+	}
+	type shIn struct {
+		Prefix string   `json:"prefix"`
+		Files  []string `json:"files"`
+	}
+	var shIns []shIn
+	for _, s := range shs {
+		shIns = append(shIns, shIn{s.Prefix, s.Files})
+	}
+	rel := o.eval(qRel, map[string]any{"shapes": shIns}).([]any)
+	for si, s := range shs {
+		for _, r := range rel[si].([]any) {
+			s.RegoRel = append(s.RegoRel, r.(string))
+		}
+		if s.Full {
+			continue
+		}
+		for i, f := range s.Files {
+			add(f)
+			add(strings.TrimPrefix(f, "/"))
+			add(s.RegoRel[i])
+			for _, pre := range []string{s.Prefix, s.Prefix + "/", strings.TrimSuffix(s.Prefix, "/")} {
+				if pre != "" {
+					add(strings.TrimPrefix(f, pre))
+				}
+			}
+		}
+	}
+	return cols
+}
+
+var oddAtoms = []string{"a", "b", ".rego", "*", "**", "?", "/", "[ab]", "[!a]", "{a,b}", "\\*", "é", "日", ".", "..", "-", " ", "a.rego", "**/", "/**"}
+var badAtoms = []string{"[", "[a-", "{a", "\\", "[]", "{", "[^"}
+
+func patternSet(rng *hutil.Rng, tier string, corpus []string) ([]string, map[string]string) {
+	srcs := map[string]string{}
+	var pats []string
+	add := func(p, src string) {
+		if p == "" {
+			return // the empty pattern is a small case (Go never passes it to excludeFile)
+		}
+		if _, ok := srcs[p]; !ok {
+			srcs[p] = src
+			pats = append(pats, p)
+		}
+	}
+	for _, p := range corpus {
+		add(p, "corpus")
+	}
+	levels := tokenPatterns(4)
+	for k := 0; k < 3; k++ {
+		for _, p := range levels[k] {
+			add(p, fmt.Sprintf("tokens%d", k+1))
+		}
+	}
+	four := append([]string{}, levels[3]...)
+	if tier == "thorough" {
+		for _, p := range four {
+			add(p, "tokens4")
+		}
+		// leading / trailing separator around the 4-token patterns, sampled
+		for _, p := range four {
+			switch rng.Below(6) {
+			case 0:
+				add("/"+p, "tokens4+lead")
+			case 1:
+				add(p+"/", "tokens4+trail")
+			case 2:
+				add("/"+p+"/", "tokens4+both")
+			}
+		}
+	} else {
+		hutil.Shuffle(rng, four)
+		for _, p := range four[:500] {
+			add(p, "tokens4")
+		}
+	}
+	nOdd, nBad := 150, 40
+	if tier == "thorough" {
+		nOdd, nBad = 1500, 200
+	}
+	for i := 0; i < nOdd; i++ {
+		n := 1 + rng.Below(5)
+		p := ""
+		for j := 0; j < n; j++ {
+			p += hutil.Choice(rng, oddAtoms)
+		}
+		add(p, "odd")
+	}
+	for i := 0; i < nBad; i++ {
+		n := 1 + rng.Below(3)
+		p := ""
+		for j := 0; j < n; j++ {
+			if rng.Below(2) == 0 {
+				p += hutil.Choice(rng, badAtoms)
+			} else {
+				p += hutil.Choice(rng, tokens)
+			}
+		}
+		add(p, "malformed")
+	}
+	return pats, srcs
+}
+
+func smallCases(out *hutil.Out, o *opa, rng *hutil.Rng, tier string, all []string) {
+	levels := tokenPatterns(3)
+	var pool []string
+	for _, l := range levels {
+		pool = append(pool, l...)
+	}
+	pickList := func(max int, allowEmpty bool) []string {
+		n := rng.Below(max + 1)
+		l := []string{}
+		for i := 0; i < n; i++ {
+			switch {
+			case allowEmpty && rng.Below(8) == 0:
+				l = append(l, "")
+			case rng.Below(3) == 0:
+				// a pattern that certainly concerns some file of the case
+				l = append(l, hutil.Choice(rng, all))
+			default:
+				l = append(l, hutil.Choice(rng, pool))
+			}
+		}
+		return l
+	}
+	prefixes := []struct{ prefix, lead string }{
+		{"", ""}, {"/w", "/w/"}, {"file:///w", "file:///w/"}, {"/w/", "/w/"}, {"", "/w/"}, {"/", "/"},
+		{"/w", ""}, {"/x", "/w/"}, {"w", "w/"}, {"file:///w/", "file:///w/"},
+	}
+	files := func(lead string) []string {
+		n := 6 + rng.Below(10)
+		fs := []string{}
+		for i := 0; i < n; i++ {
+			fs = append(fs, lead+hutil.Choice(rng, all))
+		}
+		return fs
+	}
+	emit := func(c SmallCase) { out.Emit(c) }
+	// fixed cases first: the empty pattern, precedence of the CLI list, stdin, duplicates
+	fixedFiles := []string{"a/b.rego", "b.rego", "a/a/a.rego", "b/a.rego"}
+	emit(smallCase(o, "fixed:empty-pattern-config", "", fixedFiles, nil, []string{""}, true, nil))
+	emit(smallCase(o, "fixed:empty-pattern-rule", "", fixedFiles, nil, nil, false, []string{""}))
+	emit(smallCase(o, "fixed:empty-pattern-cli", "", fixedFiles, []string{""}, []string{"a"}, true, nil))
+	emit(smallCase(o, "fixed:empty-then-match", "", fixedFiles, nil, []string{"", "b.rego"}, true, nil))
+	emit(smallCase(o, "fixed:cli-over-config", "", fixedFiles, []string{"b.rego"}, []string{"a"}, true, nil))
+	emit(smallCase(o, "fixed:config-only", "", fixedFiles, nil, []string{"a"}, true, nil))
+	emit(smallCase(o, "fixed:no-ignore-key", "", fixedFiles, nil, nil, false, []string{"b.rego"}))
+	emit(smallCase(o, "fixed:stdin", "", []string{"-"}, nil, []string{"*"}, true, nil))
+	emit(smallCase(o, "fixed:dup-files", "/w", []string{"/w/a/b.rego", "/w/b.rego", "/w/a/b.rego"}, nil, []string{"/a"}, true, nil))
+	n := 250
+	if tier == "thorough" {
+		n = 3000
+	}
+	for i := 0; i < n; i++ {
+		pp := hutil.Choice(rng, prefixes)
+		var cli, cfg, rule []string
+		cfgSet := rng.Below(5) != 0
+		if rng.Below(3) == 0 {
+			cli = pickList(2, true)
+		}
+		if cfgSet {
+			cfg = pickList(4, true)
+		}
+		if rng.Below(2) == 0 {
+			rule = pickList(2, true)
+		}
+		emit(smallCase(o, "random", pp.prefix, files(pp.lead), cli, cfg, cfgSet, rule))
+	}
+}
+
+// ---------------------------------------------------------------- end to end through linter.Lint
+
+const builtinPolicy = "package p\n\ncamelCase := 1\n"
+
+const customReportRule = `# METADATA
+# description: fires once in every file
+package custom.regal.rules.verif["every-file"]
+
+import data.regal.result
+
+report contains violation if {
+	violation := result.fail(rego.metadata.chain(), result.location(input["package"].path[1]))
+}
+`
+
+const customAggRule = `# METADATA
+# description: one violation per file that contributed an aggregate entry
+package custom.regal.rules.verif["every-file-agg"]
+
+import data.regal.result
+
+aggregate contains result.aggregate(rego.metadata.chain(), {})
+
+aggregate_report contains violation if {
+	some entry in input.aggregate
+	violation := result.fail(rego.metadata.chain(), {"location": {
+		"file": entry.aggregate_source.file, "row": 1, "col": 1, "text": "package p",
+	}})
+}
+`
+
+// LintCase: one linter.Lint run. Names are reported with the workspace root replaced by "/R".
+type LintCase struct {
+	Kind    string              `json:"kind"` // "lint"
+	Src     string              `json:"src"`
+	Mode    string              `json:"mode"`   // "paths-abs" | "paths-rel" | "modules-uri" | "modules-abs"
+	Prefix  string              `json:"prefix"` // canonical ("/R" for the root)
+	Rel     []string            `json:"rel"`    // root-relative names of the files handed to the linter
+	Files   []string            `json:"files"`  // the names as the linter saw them (canonical)
+	Cli     []string            `json:"cli"`
+	Cfg     []string            `json:"cfg"`
+	CfgSet  bool                `json:"cfg_set"`
+	RuleIgn map[string][]string `json:"rule_ignore"` // per rule kind: builtin / custom / agg
+	Table   [][]string          `json:"table"`
+	// observed
+	Err          string              `json:"err,omitempty"`
+	FilesScanned int                 `json:"files_scanned"`
+	Hit          map[string][]string `json:"hit"` // rule kind -> canonical names of files with a violation of it
+}
+
+var ruleTitle = map[string][2]string{
+	"builtin": {"style", "prefer-snake-case"},
+	"custom":  {"verif", "every-file"},
+	"agg":     {"verif", "every-file-agg"},
+}
+
+type lintEnv struct {
+	root, rulesDir string
+	rel            []string
+}
+
+func setupLint(work string) lintEnv {
+	root := filepath.Join(work, "ws")
+	rulesDir := filepath.Join(work, "customrules")
+	must(os.MkdirAll(rulesDir, 0o755))
+	must(os.WriteFile(filepath.Join(rulesDir, "every_file.rego"), []byte(customReportRule), 0o644))
+	must(os.WriteFile(filepath.Join(rulesDir, "every_file_agg.rego"), []byte(customAggRule), 0o644))
+	rel := []string{"a.rego", "b.rego", "a/a.rego", "a/b.rego", "b/a.rego", "a/b/b.rego", "b/a/a.rego", "a/a/b/b.rego"}
+	for _, r := range rel {
+		p := filepath.Join(root, r)
+		must(os.MkdirAll(filepath.Dir(p), 0o755))
+		must(os.WriteFile(p, []byte(builtinPolicy), 0o644))
+	}
+	must(os.Chdir(root))
+	return lintEnv{root: root, rulesDir: rulesDir, rel: rel}
+}
+
+func must(err error) {
+	if err != nil {
+		panic(err)
+	}
+}
+
+func canon(root, s string) string {
+	return strings.ReplaceAll(s, root, "/R")
+}
+
+func runLint(env lintEnv, c *LintCase) {
+	decanon := func(s string) string { return strings.ReplaceAll(s, "/R", env.root) }
+	prefix := decanon(c.Prefix)
+	conf := config.Config{Rules: map[string]config.Category{}}
+	if c.CfgSet {
+		conf.Ignore.Files = c.Cfg
+	}
+	for kind, ign := range c.RuleIgn {
+		ct := ruleTitle[kind]
+		if conf.Rules[ct[0]] == nil {
+			conf.Rules[ct[0]] = config.Category{}
+		}
+		conf.Rules[ct[0]][ct[1]] = config.Rule{Level: "error", Ignore: &config.Ignore{Files: ign}}
+	}
+	l := linter.NewLinter().WithUserConfig(conf).WithCustomRules([]string{env.rulesDir}).WithPathPrefix(prefix)
+	if len(c.Cli) > 0 || c.Cli != nil {
+		l = l.WithIgnore(c.Cli)
+	}
+	var names []string
+	for _, f := range c.Files {
+		names = append(names, decanon(f))
+	}
+	switch c.Mode {
+	case "paths-abs", "paths-rel":
+		l = l.WithInputPaths(names)
+	default:
+		m := map[string]string{}
+		for _, n := range names {
+			m[n] = builtinPolicy
+		}
+		in, err := rules.InputFromMap(m, nil)
+		if err != nil {
+			c.Err = canon(env.root, err.Error())
+			return
+		}
+		l = l.WithInputModules(&in)
+	}
+	rep, err := l.Lint(context.Background())
+	if err != nil {
+		c.Err = canon(env.root, err.Error())
+		return
+	}
+	c.FilesScanned = rep.Summary.FilesScanned
+	c.Hit = map[string][]string{"builtin": {}, "custom": {}, "agg": {}}
+	for _, v := range rep.Violations {
+		for kind, ct := range ruleTitle {
+			if v.Category == ct[0] && v.Title == ct[1] {
+				c.Hit[kind] = append(c.Hit[kind], canon(env.root, v.Location.File))
+			}
+		}
+	}
+	for k := range c.Hit {
+		sort.Strings(c.Hit[k])
+	}
+}
+
+func lintTable(c *LintCase) {
+	colSet := map[string]bool{}
+	var cols []string
+	addc := func(s string) {
+		if !colSet[s] {
+			colSet[s] = true
+			cols = append(cols, s)
+		}
+	}
+	addc("__aggregate_report__")
+	for i, f := range c.Files {
+		addc(f)
+		addc(c.Rel[i])
+		addc(strings.TrimPrefix(f, "/"))
+		for _, pre := range []string{c.Prefix, c.Prefix + "/", strings.TrimSuffix(c.Prefix, "/")} {
+			if pre != "" {
+				addc(strings.TrimPrefix(f, pre))
+			}
+		}
+	}
+	lists := [][]string{c.Cli, c.Cfg}
+	for _, l := range c.RuleIgn {
+		lists = append(lists, l)
+	}
+	patSet := map[string]bool{}
+	for _, l := range lists {
+		for _, p := range l {
+			if patSet[p] {
+				continue
+			}
+			patSet[p] = true
+			for _, e := range closure(p) {
+				row := []string{e}
+				g, err := glob.Compile(e, '/')
+				if err != nil {
+					row = append(row, "bad")
+				} else {
+					row = append(row, "ok")
+					for _, u := range cols {
+						if g.Match(u) {
+							row = append(row, u)
+						}
+					}
+				}
+				c.Table = append(c.Table, row)
+			}
+		}
+	}
+}
+
+func lintCases(out *hutil.Out, rng *hutil.Rng, tier string, work string) {
+	env := setupLint(work)
+	var cases []*LintCase
+	mk := func(src, mode, prefix string, rel, cli, cfg []string, cfgSet bool, ign map[string][]string) {
+		c := &LintCase{Kind: "lint", Src: src, Mode: mode, Prefix: prefix, Rel: rel, Cli: cli, Cfg: cfg, CfgSet: cfgSet, RuleIgn: ign}
+		if c.Cfg == nil {
+			c.Cfg = []string{}
+		}
+		if c.RuleIgn == nil {
+			c.RuleIgn = map[string][]string{}
+		}
+		for _, r := range rel {
+			switch mode {
+			case "paths-abs", "modules-abs":
+				c.Files = append(c.Files, "/R/"+r)
+			case "paths-rel":
+				c.Files = append(c.Files, r)
+			case "modules-uri":
+				c.Files = append(c.Files, "file:///R/"+r)
+			}
+		}
+		cases = append(cases, c)
+	}
+	all := env.rel
+	three := map[string][]string{"builtin": {"a/b.rego"}, "custom": {"a/b.rego"}, "agg": {"a/b.rego"}}
+	// fixed: one global ignore, one per-rule ignore, per mode/prefix
+	for _, mp := range [][2]string{{"paths-abs", "/R"}, {"paths-rel", "/R"}, {"paths-rel", ""}, {"modules-uri", "file:///R"},
+		{"modules-abs", "/R"}, {"paths-abs", "/R/"}, {"paths-abs", ""}} {
+		mk("fixed:global", mp[0], mp[1], all, nil, []string{"a/"}, true, nil)
+		mk("fixed:per-rule", mp[0], mp[1], all, nil, nil, false, three)
+		mk("fixed:per-rule-dir", mp[0], mp[1], all, nil, nil, false, map[string][]string{"builtin": {"/b/"}, "custom": {"/b/"}, "agg": {"/b/"}})
+	}
+	mk("fixed:cli-over-config", "paths-abs", "/R", all, []string{"b.rego"}, []string{"a/"}, true, nil)
+	mk("fixed:cli-empty-list", "paths-abs", "/R", all, []string{}, []string{"a/"}, true, nil)
+	mk("fixed:empty-pattern", "paths-abs", "/R", all, nil, []string{""}, true, nil)
+	mk("fixed:empty-pattern-rule", "paths-abs", "/R", all, nil, nil, false, map[string][]string{"builtin": {""}, "custom": {""}, "agg": {""}})
+	mk("fixed:abs-noprefix-rooted-pattern", "paths-abs", "", all, nil, nil, false,
+		map[string][]string{"builtin": {"R/a/b.rego"}, "custom": {"R/a/b.rego"}, "agg": {"R/a/b.rego"}})
+	mk("fixed:nothing", "paths-abs", "/R", all, nil, nil, false, nil)
+	mk("fixed:single-file", "paths-abs", "/R", []string{"a/b.rego"}, nil, nil, false, nil)
+	mk("fixed:two-files-one-ignored", "paths-abs", "/R", []string{"a/b.rego", "b.rego"}, nil, []string{"/b.rego"}, true, nil)
+
+	levels := tokenPatterns(3)
+	var pool []string
+	for _, l := range levels {
+		pool = append(pool, l...)
+	}
+	pick := func(max int) []string {
+		n := rng.Below(max + 1)
+		l := []string{}
+		for i := 0; i < n; i++ {
+			if rng.Below(2) == 0 {
+				r := hutil.Choice(rng, all)
+				switch rng.Below(4) {
+				case 0:
+					l = append(l, r)
+				case 1:
+					l = append(l, "/"+r)
+				case 2:
+					l = append(l, filepath.Dir(r)+"/")
+				default:
+					l = append(l, filepath.Base(r))
+				}
+			} else {
+				l = append(l, hutil.Choice(rng, pool))
+			}
+		}
+		return l
+	}
+	n := 40
+	if tier == "thorough" {
+		n = 600
+	}
+	modes := [][2]string{{"paths-abs", "/R"}, {"paths-abs", "/R"}, {"paths-rel", "/R"}, {"modules-uri", "file:///R"}, {"modules-abs", "/R"},
+		{"paths-abs", ""}, {"paths-rel", ""}, {"paths-abs", "/R/"}}
+	for i := 0; i < n; i++ {
+		mp := hutil.Choice(rng, modes)
+		var cli []string
+		if rng.Below(4) == 0 {
+			cli = pick(2)
+		}
+		cfgSet := rng.Below(3) != 0
+		var cfg []string
+		if cfgSet {
+			cfg = pick(2)
+		}
+		ign := map[string][]string{}
+		for _, k := range []string{"builtin", "custom", "agg"} {
+			if rng.Below(2) == 0 {
+				ign[k] = pick(2)
+			}
+		}
+		rel := all
+		if rng.Below(5) == 0 {
+			rel = all[:1+rng.Below(3)]
+		}
+		mk("random", mp[0], mp[1], rel, cli, cfg, cfgSet, ign)
+	}
+	runAll(env, cases)
+	for _, c := range cases {
+		out.Emit(c)
+	}
+}
+
+func runAll(env lintEnv, cases []*LintCase) {
+	var wg sync.WaitGroup
+	sem := make(chan struct{}, runtime.NumCPU())
+	for _, c := range cases {
+		wg.Add(1)
+		sem <- struct{}{}
+		go func(c *LintCase) {
+			defer wg.Done()
+			defer func() { <-sem }()
+			lintTable(c)
+			runLint(env, c)
+		}(c)
+	}
+	wg.Wait()
+}
+
+// ---------------------------------------------------------------- replay
+
+func replay(out *hutil.Out, o *opa, file, work string) {
+	raw, err := os.ReadFile(file)
+	must(err)
+	var r struct {
+		Case json.RawMessage `json:"case"`
+	}
+	must(json.Unmarshal(raw, &r))
+	var k struct {
+		Kind string `json:"kind"`
+	}
+	must(json.Unmarshal(r.Case, &k))
+	switch k.Kind {
+	case "small":
+		var c SmallCase
+		must(json.Unmarshal(r.Case, &c))
+		out.Emit(smallCase(o, "replay", c.Prefix, c.Files, c.Cli, c.Cfg, c.CfgSet, c.Rule))
+	case "lint":
+		var c LintCase
+		must(json.Unmarshal(r.Case, &c))
+		env := setupLint(work)
+		c.Table, c.Hit, c.Err, c.FilesScanned = nil, nil, "", 0
+		runAll(env, []*LintCase{&c})
+		out.Emit(c)
+	case "pat":
+		var c struct {
+			P     string `json:"p"`
+			Shape *Shape `json:"shape"`
+		}
+		must(json.Unmarshal(r.Case, &c))
+		all := relPaths(4)
+		shs := shapes(all, relPaths(2))
+		if c.Shape != nil {
+			shs = []*Shape{c.Shape}
+			c.Shape.Full = false
+			c.Shape.RegoRel = nil
+		}
+		universe := buildUniverse(o, shs, all)
+		out.Emit(map[string]any{"kind": "universe", "cols": universe})
+		for _, s := range shs {
+			out.Emit(map[string]any{"kind": "shape", "shape": s})
+		}
+		bulk(out, o, []string{c.P}, map[string]string{c.P: "replay"}, shs, universe)
+	default:
+		panic("unknown case kind " + k.Kind)
+	}
+}
+
 // ---------------------------------------------------------------- main
 
 func main() {
-	if len(os.Args) < 4 {
-		fmt.Fprintln(os.Stderr, "usage: c05 <out.jsonl> <tier> <workdir> [replay.json]")
+	if len(os.Args) < 5 {
+		fmt.Fprintln(os.Stderr, "usage: c05 <out.jsonl> <tier> <workdir> <corpus.json> [replay.json]")
 		os.Exit(2)
 	}
 	out := hutil.NewOut(os.Args[1])
@@ -487,17 +1063,17 @@ func main() {
 	rng := hutil.NewRng(hutil.SeedFromEnv())
 	o := newOpa()
 
-	if len(os.Args) > 4 {
-		replay(out, o, os.Args[4], work)
+	if len(os.Args) > 5 {
+		replay(out, o, os.Args[5], work)
 		return
+	}
+	var corpus []string
+	if raw, err := os.ReadFile(os.Args[4]); err == nil {
+		must(json.Unmarshal(raw, &corpus))
 	}
 
 	all := relPaths(4)
-	var small []string
-	for _, r := range relPaths(2) {
-		small = append(small, r)
-	}
-	// a few deeper ones in the small set
+	small := append([]string{}, relPaths(2)...)
 	for i := 0; i < 12; i++ {
 		small = append(small, all[20+rng.Below(len(all)-20)])
 	}
@@ -507,10 +1083,8 @@ func main() {
 	for _, s := range shs {
 		out.Emit(map[string]any{"kind": "shape", "shape": s})
 	}
-
-	pats, srcs := patternSet(rng, tier, filepath.Join(work, "..", "corpus_c05"))
+	pats, srcs := patternSet(rng, tier, corpus)
 	bulk(out, o, pats, srcs, shs, universe)
 	smallCases(out, o, rng, tier, all)
 	lintCases(out, rng, tier, work)
-	_ = hex.EncodeToString
 }
